@@ -39,6 +39,15 @@ type Unit struct {
 	Share float64 // share of the property's time budget
 	Procs int     // GOMAXPROCS in the child (default 1)
 	MemMB int     // hard address-space limit of the child in MiB (0 = none)
+	// Instr: build against an instrumented scratch copy of the repository in
+	// which every mutex acquisition is preceded by a verifhook.BeforeLock call
+	// (cmd/instrument), so that the cooperative scheduler has a scheduling
+	// point at every lock site - also at sites a change has added or moved
+	Instr bool
+	// Cold: every run gets a process of its own (the child executes exactly
+	// one run and exits), for state that gopacket computes on first use and
+	// keeps for the life of the process
+	Cold bool
 }
 
 type PropDef struct {
@@ -65,11 +74,19 @@ func goEnv() []string {
 	return env
 }
 
-// modfile returns extra build args redirecting the gopacket replace to
-// $VERIF_REPO (used for mutants in scratch copies); nil for /repo.
-func modfileArgs(scratch string) []string {
-	repo := os.Getenv("VERIF_REPO")
-	if repo == "" || repo == "/repo" {
+// repoPath is the repository the simulations are built against.
+func repoPath() string {
+	if r := os.Getenv("VERIF_REPO"); r != "" {
+		return r
+	}
+	return "/repo"
+}
+
+// modfileArgs returns extra build args redirecting the gopacket replace to
+// repo (a scratch copy for seeded changes, or an instrumented copy); nil for
+// /repo itself.
+func modfileArgs(scratch, repo, name string) []string {
+	if repo == "/repo" {
 		return nil
 	}
 	gm, err := os.ReadFile(filepath.Join(root, "go.mod"))
@@ -77,15 +94,52 @@ func modfileArgs(scratch string) []string {
 		fatal2("%v", err)
 	}
 	gm = bytes.Replace(gm, []byte("=> /repo"), []byte("=> "+repo), 1)
-	mf := filepath.Join(scratch, "go.mod")
+	mf := filepath.Join(scratch, name+".mod")
 	os.WriteFile(mf, gm, 0o644)
 	gs, _ := os.ReadFile(filepath.Join(root, "go.sum"))
-	os.WriteFile(filepath.Join(scratch, "go.sum"), gs, 0o644)
+	os.WriteFile(filepath.Join(scratch, name+".sum"), gs, 0o644)
 	return []string{"-modfile=" + mf}
 }
 
+// instrPkgs are the package directories whose lock sites are instrumented.
+var instrPkgs = []string{".", "layers", "reassembly", "tcpassembly", "tcpassembly/tcpreader", "ip4defrag", "ip6defrag", "pcapgo"}
+
+// instrumented brings the instrumented copy of repo up to date and returns
+// its path together with a function releasing the lock that protects it
+// (concurrent checks of the same tree share the copy and the build cache).
+func instrumented(repo string) (string, func()) {
+	h := sha256.Sum256([]byte(repo))
+	dst := filepath.Join("/dev/shm", fmt.Sprintf("verif-instr-%x", h[:6]))
+	lf, err := os.OpenFile(dst+".lock", os.O_CREATE|os.O_RDWR, 0o644)
+	if err != nil {
+		fatal2("%v", err)
+	}
+	if err := syscall.Flock(int(lf.Fd()), syscall.LOCK_EX); err != nil {
+		fatal2("flock: %v", err)
+	}
+	unlock := func() { syscall.Flock(int(lf.Fd()), syscall.LOCK_UN); lf.Close() }
+	os.MkdirAll(dst, 0o755)
+	run := func(name string, args ...string) {
+		cmd := exec.Command(name, args...)
+		cmd.Dir = root
+		cmd.Env = goEnv()
+		if out, err := cmd.CombinedOutput(); err != nil {
+			unlock()
+			fatal2("%s %v: %v\n%s", name, args, err, out)
+		}
+	}
+	run("rsync", "-a", "--delete", "--exclude", ".git", repo+"/", dst+"/")
+	run("/opt/veriftools/go1.26.8/bin/go", "build", "-o", filepath.Join(root, "bin", "instrument"), "./cmd/instrument")
+	var dirs []string
+	for _, p := range instrPkgs {
+		dirs = append(dirs, filepath.Join(dst, p))
+	}
+	run(filepath.Join(root, "bin", "instrument"), dirs...)
+	return dst, unlock
+}
+
 func binDir() string {
-	if r := os.Getenv("VERIF_REPO"); r != "" && r != "/repo" {
+	if r := repoPath(); r != "/repo" {
 		h := sha256.Sum256([]byte(r))
 		return filepath.Join("/dev/shm", fmt.Sprintf("verif-bin-%x", h[:6]))
 	}
@@ -100,7 +154,13 @@ func build(u Unit, scratch string) string {
 	if u.Race {
 		args = append(args, "-race")
 	}
-	args = append(args, modfileArgs(scratch)...)
+	repo := repoPath()
+	if u.Instr {
+		var unlock func()
+		repo, unlock = instrumented(repo)
+		defer unlock()
+	}
+	args = append(args, modfileArgs(scratch, repo, u.Name)...)
 	args = append(args, "-o", out, u.Pkg)
 	cmd := exec.Command("/opt/veriftools/go1.26.8/bin/go", args...)
 	cmd.Dir = root
@@ -364,26 +424,41 @@ func check(prop, tier string) int {
 		bin := build(u, scratch)
 		ub := time.Duration(float64(budget)*u.Share*1000) * time.Millisecond
 		var wg sync.WaitGroup
-		res := make([]childRes, workers)
+		var resMu sync.Mutex
+		var res []childRes
 		for i := 0; i < workers; i++ {
 			wg.Add(1)
 			go func(i int) {
 				defer wg.Done()
-				sp := sim.Spec{Sim: u.Sim, Prop: prop, Mode: "explore", Seed: seed, Idx: i, Stride: workers,
-					BudgetMs: ub.Milliseconds(), Tier: tier, Out: filepath.Join(scratch, fmt.Sprintf("%s-%d.json", u.Name, i)),
-					MaxShrink: envInt("VERIF_MAX_SHRINK", 1500), Race: u.Race, Procs: u.Procs,
-					MaxRuns: envInt("VERIF_MAX_RUNS", 0), MemLimitMB: u.MemMB}
-				var env []string
-				if u.Race {
-					sp.RaceLog = sp.Out + ".race"
-					env = append(env, "GORACE=halt_on_error=0 log_path="+sp.RaceLog)
-				}
-				res[i] = runChild(bin, sp, ub+ub/2+120*time.Second, env...)
-				if res[i].err != nil && res[i].out == nil {
-					if found, ok := attribute(bin, sp, res[i], env); ok {
-						// the process is lost, its verdict is not
-						res[i] = childRes{out: &sim.Out{Sim: u.Sim, Found: found, Faults: map[string]int{}, Probes: map[string]int{}}, path: sp.Out}
-						crashed.Add(1)
+				deadline := time.Now().Add(ub)
+				for iter := 0; ; iter++ {
+					sp := sim.Spec{Sim: u.Sim, Prop: prop, Mode: "explore", Seed: seed, Idx: i, Stride: workers,
+						BudgetMs: ub.Milliseconds(), Tier: tier, Out: filepath.Join(scratch, fmt.Sprintf("%s-%d-%d.json", u.Name, i, iter)),
+						MaxShrink: envInt("VERIF_MAX_SHRINK", 1500), Race: u.Race, Procs: u.Procs,
+						MaxRuns: envInt("VERIF_MAX_RUNS", 0), MemLimitMB: u.MemMB}
+					if u.Cold {
+						// one run per process: run number i + iter*workers
+						sp.Idx, sp.Stride, sp.BudgetMs = i+iter*workers, 1, 0
+						sp.MaxRuns = sp.Idx + 1
+					}
+					var env []string
+					if u.Race {
+						sp.RaceLog = sp.Out + ".race"
+						env = append(env, "GORACE=halt_on_error=0 log_path="+sp.RaceLog)
+					}
+					r := runChild(bin, sp, ub+ub/2+120*time.Second, env...)
+					if r.err != nil && r.out == nil {
+						if found, ok := attribute(bin, sp, r, env); ok {
+							// the process is lost, its verdict is not
+							r = childRes{out: &sim.Out{Sim: u.Sim, Found: found, Faults: map[string]int{}, Probes: map[string]int{}}, path: sp.Out}
+							crashed.Add(1)
+						}
+					}
+					resMu.Lock()
+					res = append(res, r)
+					resMu.Unlock()
+					if !u.Cold || r.err != nil || time.Now().After(deadline) || (envInt("VERIF_MAX_RUNS", 0) > 0 && (iter+1)*workers >= envInt("VERIF_MAX_RUNS", 0)) {
+						break
 					}
 				}
 			}(i)
